@@ -85,6 +85,84 @@ theorem tok_eq (P r : List Char) (c : Char) (ht : text = P ++ c :: r) (tk : Tok)
   push_cast
   omega
 
+/-- at the first character of a token: white space skipped, `start`, `sline`, `scol` set -/
+structure Tk (l : Lexer) (P suf : List Char) : Prop where
+  cur : Cur l P suf
+  pos : Pos l P
+  start : l.start = (encodeChars P).length
+  sline : l.sline = lineAfter P
+  scol : l.scol = colAfter P
+  ready : Ready file l
+  state : l.state = .ground
+
+/-- a token is queued, the lexer is in the ground state behind it: `NextToken` hands it out -/
+theorem finish (f : Nat) (l2 : Lexer) (t : Token) (P' rest : List Char) (hi : l2.items = [t])
+    (hst : l2.state = .ground) (hc : Cur l2 P' rest) (hp : PosN l2 P' rest) (he : l2.errout = [])
+    (hn : l2.errcnt = 0) (hf : l2.fault = .none) (hfile : l2.file = file) :
+    (nextTokenLoop (f + 1) l2).1 = some t ∧ Gnd file (nextTokenLoop (f + 1) l2).2 P' rest ∧
+    (nextTokenLoop (f + 1) l2).2.inPattern = l2.inPattern := by
+  rw [nextTokenLoop_pop1 f l2 t hi]
+  refine ⟨rfl, ⟨⟨hc.before, hc.rest, hc.line⟩, ?_, ⟨rfl, he, hn, hf, hfile⟩, hst⟩, rfl⟩
+  unfold PosN at hp ⊢
+  split
+  · trivial
+  · rename_i heq; rw [heq] at hp; exact hp
+  · rename_i h1 h2
+    split at hp
+    · rename_i heq; exact absurd heq (h1 _)
+    · rename_i heq; exact absurd heq (h2 _)
+    · exact ⟨hp.col, hp.tcol⟩
+
+/-- `setState .ground (emitText …)`: the fields -/
+theorem emitted (c : Code) (tb : List UInt8) (l : Lexer) (hi : l.items = []) :
+    (setState .ground (emitText c tb l)).items =
+      [{ code := c, text := tb, file := l.file, line := l.sline, col := l.scol + 1 }] ∧
+    (setState .ground (emitText c tb l)).state = .ground ∧
+    (setState .ground (emitText c tb l)).before = l.before ∧ (setState .ground (emitText c tb l)).rest = l.rest ∧
+    (setState .ground (emitText c tb l)).line = l.line ∧ (setState .ground (emitText c tb l)).col = l.col ∧
+    (setState .ground (emitText c tb l)).tcol = l.tcol ∧ (setState .ground (emitText c tb l)).errout = l.errout ∧
+    (setState .ground (emitText c tb l)).errcnt = l.errcnt ∧ (setState .ground (emitText c tb l)).fault = l.fault ∧
+    (setState .ground (emitText c tb l)).file = l.file ∧
+    (setState .ground (emitText c tb l)).inPattern = l.inPattern := by
+  obtain ⟨e1, e2, e3, e4, e5, e6, e7, e8, e9, e10, _, _⟩ := emitText_frame c tb l
+  exact ⟨emitText_items c tb l hi, rfl, e1, e2, e3, e4, e5, e6, e7, e8, e9, e10⟩
+
+theorem posN_of_fields {l l' : Lexer} {P rest : List Char} (hp : PosN l P rest) (hc : l'.col = l.col)
+    (ht : l'.tcol = l.tcol) : PosN l' P rest := by
+  unfold PosN at hp ⊢
+  split
+  · trivial
+  · rw [hc, ht]; exact hp
+  · exact ⟨hc.trans hp.col, ht.trans hp.tcol⟩
+
+/-- `;`, `{`, `}` -/
+theorem punct_case (b : Bool) (f : Nat) (l : Lexer) (P r : List Char) (c : Char) (ht : text = P ++ c :: r)
+    (hk : Tk file l P (c :: r)) (hb : l.inPattern = b) (tk : Tok)
+    (hc : (c = ';' ∧ tk = .semi) ∨ (c = '{' ∧ tk = .lbrace) ∨ (c = '}' ∧ tk = .rbrace)) :
+    (nextTokenLoop (f + 1) (setState .ground (emit (.punct (UInt8.ofNat c.toNat)) (next l).2))).1 =
+      some (conv text file ⟨tk, text.length - (r.length + 1)⟩) ∧
+    ∃ pre', text = pre' ++ r ∧
+      Gnd file (nextTokenLoop (f + 1) (setState .ground (emit (.punct (UInt8.ofNat c.toNat)) (next l).2))).2 pre' r ∧
+      (nextTokenLoop (f + 1) (setState .ground (emit (.punct (UInt8.ofNat c.toNat)) (next l).2))).2.inPattern = b := by
+  obtain ⟨n1, n2, n3, _, n5⟩ := next_char l P r c hk.cur (hk.pos.posN _)
+  have hemit : emit (.punct (UInt8.ofNat c.toNat)) (next l).2 =
+      emitText (.punct (UInt8.ofNat c.toNat)) (encodeChars [c]) (next l).2 :=
+    emit_eq _ _ P [c] r n2 (by rw [n5.start]; exact hk.start)
+  rw [hemit]
+  have hr1 : Ready file (next l).2 := n5.ready hk.ready
+  obtain ⟨e1, e2, e3, e4, e5, e6, e7, e8, e9, e10, e11, e12⟩ :=
+    emitted (.punct (UInt8.ofNat c.toNat)) (encodeChars [c]) (next l).2 hr1.items
+  have htok : ({ code := Code.punct (UInt8.ofNat c.toNat), text := encodeChars [c], file := (next l).2.file,
+      line := (next l).2.sline, col := (next l).2.scol + 1 } : Token) =
+      conv text file ⟨tk, text.length - (r.length + 1)⟩ := by
+    rw [← tok_eq text file P r c ht tk _ _ (n5.sline.trans hk.sline) (n5.scol.trans hk.scol), hr1.file]
+    rcases hc with ⟨h1, h2⟩ | ⟨h1, h2⟩ | ⟨h1, h2⟩ <;> (rw [h1, h2]; rfl)
+  rw [htok] at e1
+  obtain ⟨q1, q2, q3⟩ := finish file f _ _ (P ++ [c]) r e1 e2 ⟨e3.trans n2.before, e4.trans n2.rest, e5.trans n2.line⟩
+    (posN_of_fields (n3.posN r) e6 e7) (e8.trans hr1.errout) (e9.trans hr1.errcnt) (e10.trans hr1.fault)
+    (e11.trans hr1.file)
+  exact ⟨q1, P ++ [c], by rw [ht]; simp, q2, by rw [q3, e12, n5.inPattern]; exact hb⟩
+
 end
 
 end Goyang.Lemmas.TokSim
